@@ -11,6 +11,7 @@ process directly after a few *neighbours* a wrongly keyed memory could confuse i
   * the text in upper / lower case (key that folds case), the text without back-quotes (key from unified names),
   * for analysis requests: the lineage analysis of `S UNION ALL S` and of S itself over a catalogue guessed from S (the only code of the library that changes
     analysis results in place),
+  * for analysis requests: the same analyses run by a caller that then CHANGES the list / dict it was given (command ANMUT): a result is the caller's own object,
   * the request itself (asked twice: a result that is changed after it was handed out).
 
 The answer after the neighbours must be the answer the fresh pass gave.  A difference is a failure of the property at hand on a concrete history (kind
@@ -55,6 +56,9 @@ def neighbours(req, r):
     for v in text_variants(t, r):
         q = list(p); q[-1] = E.enhex(v); out.append(" ".join(q))
     if p[0] == "AN" and p[1] in ("tables", "columns") and dpos:
+        # a caller that changes the list it was handed (the result of an analysis is the caller's own object), for every kind of analysis of the statement
+        kinds = {"tables": ["all", "from", "join"], "columns": ["all", "select", "join", "where", "group", "having", "order", "hash"]}[p[1]]
+        out += ["ANMUT %s %s %s %s" % (p[1], k, p[dpos[0]], p[-1]) for k in dict.fromkeys([p[2]] + r.shuffle(kinds)[:3])]
         d = p[dpos[0]]
         cat = guessed_catalogue(t)
         if cat:
